@@ -960,3 +960,45 @@ Definition run_for_images (a b : dset) (fa fb : option Z) (ta tb : bool) (pts : 
 Definition run_tiled_full_frame (d : dset) (f : Z) : val :=
   vres (fun t => VL [VZ (tf_channel t); VZ (tf_focal t); VZ (tf_col t); VZ (tf_row t); vvec (tf_pos t)])
        (tiled_full_frame d f).
+
+(* ---- further accessors of volume.py:647-802 ---- *)
+Definition g_inverse_affine (G : geom) : res aff :=
+  let A := g_aff G in bind (inv3 (lin A)) (fun Ri => Ok (Aff Ri (vred (vneg (mapply Ri (tr A)))))).
+Definition g_pixel_spacing (G : geom) : option (Q * Q) :=
+  match g_spacing G with Some s => Some (vy s, vz s) | None => None end.
+Definition g_spacing_between_slices (G : geom) : option Q :=
+  match g_spacing G with Some s => Some (vx s) | None => None end.
+Definition g_direction (G : geom) : option mat :=
+  match g_spacing G with
+  | Some s => let M := lin (g_aff G) in
+              Some (M3 (smul (/ vx s) (c0 M)) (smul (/ vy s) (c1 M)) (smul (/ vz s) (c2 M)))
+  | None => None
+  end.
+Definition g_voxel_volume (G : geom) : option Q :=
+  match g_spacing G with Some s => Some (vx s * vy s * vz s) | None => None end.
+Definition g_physical_extent (G : geom) : option vec :=
+  match g_spacing G, g_shape G with
+  | Some s, [n0; n1; n2] => Some (V3 (inject_Z n0 * vx s) (inject_Z n1 * vy s) (inject_Z n2 * vz s))
+  | _, _ => None
+  end.
+Definition g_physical_volume (G : geom) : option Q :=
+  match g_voxel_volume G, g_shape G with
+  | Some v, [n0; n1; n2] => Some (v * inject_Z (n0 * n1 * n2))
+  | _, _ => None
+  end.
+Definition vcols (M : mat) : val := VL [vvec (c0 M); vvec (c1 M); vvec (c2 M)].
+Definition vinexact : val := VErr "inexact-sqrt".
+(* [pixel_spacing; spacing_between_slices; voxel_volume; physical_extent; physical_volume; direction;
+    spacing_vectors; unit_vectors; inverse_affine] *)
+Definition run_geom_more (pos ori sp : arg) (ss : Q) (nf rows cols : Z) : val :=
+  vres (fun G =>
+    VL [match g_pixel_spacing G with Some (a, b) => VL [VQ a; VQ b] | None => vinexact end;
+        match g_spacing_between_slices G with Some a => VQ a | None => vinexact end;
+        match g_voxel_volume G with Some a => VQ a | None => vinexact end;
+        match g_physical_extent G with Some v => vvec v | None => vinexact end;
+        match g_physical_volume G with Some a => VQ a | None => vinexact end;
+        match g_direction G with Some D => vmat D | None => vinexact end;
+        vcols (lin (g_aff G));
+        match g_direction G with Some D => vcols D | None => vinexact end;
+        vres vaff (g_inverse_affine G)])
+    (geom_from_attributes pos ori sp ss nf rows cols).
